@@ -493,37 +493,25 @@ theorem step_inv {s : State} {op : Op} (h : Inv s) (hc : classify s op = .ok) : 
     split at hargs
     · cases hargs
     · rename_i hne
-      split at hargs
-      · cases hargs
-      · rename_i hnew
-        simp only [Bool.or_eq_true, not_or, Bool.not_eq_true] at hnew
-        apply inv_addArrayAt h
-        · intro hs; simp [hs] at hne
-        · exact hids c (by simp [Op.ids])
-        · simpa using hnew.1.1
+      apply inv_addArrayAt h
+      · intro hs; simp [hs] at hne
+      · exact hids c (by simp [Op.ids])
   | addDerived v l deps => exact inv_addDerived h v l deps
-  | remove c =>
-    simp only [classifyArgs] at hargs
-    split at hargs
-    · cases hargs
-    · rename_i hco
-      simp only [step, ok]
-      exact inv_removeComp h c (by simpa using hco)
+  | remove c => exact inv_remove h c
   | reorder cs => exact inv_reorder h cs
   | updateId old new =>
-    simp only [step, ok]
-    simp only [classifyArgs] at hargs
-    split at hargs
-    · rename_i heq
-      have : new = old := by simpa using heq
-      subst this
-      simp [updateIdImpl]
-      exact h
-    · split at hargs
-      · cases hargs
-      · rename_i hnew
-        simp only [Bool.or_eq_true, not_or, Bool.not_eq_true] at hnew
-        exact inv_updateId h old new (hids new (by simp [Op.ids])) (by simpa using hnew.1.1)
+    simp only [step]
+    split
+    · exact h
+    · rename_i hnew
+      simp only [ok]
+      by_cases heq : new = old
+      · subst heq
+        simp [updateIdImpl]
+        exact h
+      · have hne : (new != old) = true := by simpa using heq
+        simp only [hne, Bool.true_and, Bool.not_eq_true] at hnew
+        exact inv_updateId h old new (hids new (by simp [Op.ids])) (by simpa using hnew)
   | updateComponents m => exact inv_updateComponents h m
   | updateFrom o =>
     apply inv_updateFrom h
